@@ -39,7 +39,13 @@ def arena_line(model, align):
         e = "E" if (code["builtin"] == 32 and code["custom"] == "ethos-u") else "C"
         ins = "/".join(str(i) for i in op["inputs"] if i >= 0)
         outs = "/".join(str(i) for i in op["outputs"] if i >= 0)
-        ops.append(f"{e}:{code['builtin']}:{ins}:{outs}")
+        words = ""
+        if e == "E":
+            # the command words of the operator (driver payload stripped): Lean decodes them to see which outputs the
+            # stream really writes (an operator that turned out to be the identity gets no operation at all)
+            cmd = sg["tensors"][op["inputs"][0]]
+            words = ":" + ".".join(map(str, pipeline.strip_payload(pipeline.payload_words(model, cmd))))
+        ops.append(f"{e}:{code['builtin']}:{ins}:{outs}{words}")
     line = (f"arena align={align} scratch={scratch} fast={fast} inputs={','.join(map(str, sg['inputs']))} "
             f"outputs={','.join(map(str, sg['outputs']))} tensors={tens} ops={';'.join(ops)}")
     return line, (version, nsg, ntens, len(vals) - 3), scratch, fast
